@@ -25,4 +25,15 @@ theorem C19_bfs_scans_nodup (adj : Adj) (s : Nat) (hwf : WF adj) (hs : s < adj.l
   have := (loopG_inv hwf (2 * adj.length + 1) _ _ hi hg).2.nodup
   exact (List.nodup_append.1 this).1
 
+/-- **C19, findAllVertexPredecessors:** every neighbourhood scan is for a distinct vertex, so there
+are at most `V` (≤ `V + E`) of them — whatever the number of distinct shortest paths — and the
+search terminates. -/
+theorem C19_allpred_scans (adj : Adj) (s : Nat) (hwf : WF adj) (hs : s < adj.length) (hn : adj.length < MAX) :
+    (allPredRun adj s).scans.Nodup ∧ (allPredRun adj s).scans.length ≤ adj.length ∧
+    (AllPred.loop adj (2 * adj.length + 1) (AllPred.init adj.length s) []).1.queue = [] := by
+  have hi := AllPred.init_ainv adj s hs
+  have hg := AllPred.init_ginv adj s
+  have := AllPred.loop_scans_le hwf hn (2 * adj.length + 1) _ _ hi hg
+  exact ⟨this.1, this.2, AllPred.loop_done hwf hn _ _ _ hi hg (by simp; omega)⟩
+
 end BGV
